@@ -120,7 +120,7 @@ def _read_masses(lit: LineIterator, result: dict[str]) -> NDArray[float]:
 
 @document_load_one(
     "PUNCH",
-    ["title", "energy", "grot", "atgradient", "athessian", "atmasses", "atnums", "atcoords"],
+    ["title", "energy", "g_rot", "atgradient", "athessian", "atmasses", "atnums", "atcoords"],
 )
 def load_one(lit: LineIterator) -> dict[str]:
     """Do not edit this docstring. It will be overwritten."""
